@@ -13,7 +13,6 @@
 EXTENDS ClusterWrite, Json
 
 CONSTANTS GenN,      \* set of owner counts to generate (subset of 1..MaxN)
-          GenCoord,  \* set of coordinator positions to generate (subset of 0..MaxN; 0 = owns no copy)
           GenHang    \* generate DirectHang steps
 
 VARIABLE hist
@@ -29,7 +28,7 @@ Turn(o) ==
 Log(a, o, r) == hist' = Append(hist, <<a, o, r>>)
 
 \* with AllowOutOfOrderWrites the queues are never looked at: one representative (all empty) is enough
-GInit == /\ Init /\ n \in GenN /\ coord \in GenCoord
+GInit == /\ Init /\ n \in GenN
          /\ ooo => \A o \in Own : ~qne[o]
          /\ hist = <<>>
 
